@@ -160,6 +160,63 @@ class Check:
             self.notes.append("source tie: " + tie["detail"])
         return tie["status"] == "proved"
 
+    SRCO = {"sock": ("SrcSock_inst.v", ["SocketWrapper.__init__", "SocketWrapper._recv", "SocketWrapper.read", "SocketWrapper.readline", "SocketWrapper.dechunk"]),
+            "reader": ("SrcReader_inst.v", ["RTCMReader.read", "RTCMReader._parse_ubx", "RTCMReader._parse_nmea", "RTCMReader._parse_rtcm3",
+                                            "RTCMReader._read_bytes", "RTCMReader._read_line", "RTCMReader._do_error", "RTCMReader.parse"])}
+
+    def source_tie_obj(self, which):
+        """the same kind of tie for the two stream classes (DESIGN.md 3.4): tools/gen_src2.py translates the CURRENT text of the
+        class's methods into PyO syntax (coq/Src/PyO.v: objects, exceptions, while loops, calls into an abstract environment) and
+        run/Src{Sock,Reader}_inst.v re-proves, against that text, that interpreting it equals Model/Socket.v resp. Model/Reader.v for
+        every state, argument and behaviour of the environment.  Not an obligation (see source_tie)."""
+        inst, funcs = self.SRCO[which]
+        tie = {"functions": funcs, "status": "not-established", "detail": ""}
+        self.extra_cov["source_tie_" + which] = tie
+        sub = os.path.join(self.work, "srco_" + which)
+        os.makedirs(sub, exist_ok=True)
+        out = os.path.join(sub, "SrcO.v")
+        env = vlib.impl_env()
+        env["VERIF_REPO"] = vlib.REPO
+        src = os.path.join(vlib.VERIF, "run", inst)
+        if not os.path.exists(src):
+            tie["detail"] = "no equivalence proof script yet (run/%s)" % inst
+            self.notes.append("source tie (%s): %s" % (which, tie["detail"]))
+            return False
+        try:
+            p = subprocess.run([vlib.PY, os.path.join(vlib.VERIF, "tools", "gen_src2.py"), out, which], env=env, capture_output=True, text=True, timeout=120)
+        except subprocess.TimeoutExpired:
+            p = None
+        if p is None or p.returncode != 0:
+            tie["detail"] = "translator refused: " + ((p.stderr or p.stdout)[-400:] if p else "timeout")
+        else:
+            ok, log, secs = vlib.coqc(out, sub, 300)
+            if not ok:
+                tie["detail"] = "SrcO.v does not compile: " + log[-400:]
+            else:
+                dst = os.path.join(sub, inst)
+                shutil.copy(src, dst)
+                ok, log, secs2 = vlib.coqc(dst, sub, 900)
+                if not ok:
+                    tie["detail"] = "equivalence proof does not go through on the current text: " + log[-600:]
+                else:
+                    thms = self._parse_assumptions(log)
+                    bad = {k: v for k, v in thms.items() if [a for a in v if not self._axiom_allowed(a)]}
+                    if bad or not thms:
+                        tie["detail"] = "unexpected assumptions: %r" % bad
+                    else:
+                        tie["status"] = "proved"
+                        tie["detail"] = "interpretation of the translated source = model, for all states, arguments and environments (%.1fs)" % (secs + secs2)
+                        for name, ax in thms.items():
+                            self.axioms[name] = ax
+                            self.oblige("source theorem %s: PyO interpretation of the current source text = model (Print Assumptions: %s)"
+                                        % (name, "closed" if not ax else ", ".join(ax)), "source-theorem", True)
+        if tie["status"] != "proved":
+            self.force_thorough = True
+            self.notes.append("source tie (%s) not established (%s): falling back to the sampled correspondence with the thorough corpus" % (which, tie["detail"][:300]))
+        else:
+            self.notes.append("source tie (%s): %s" % (which, tie["detail"]))
+        return tie["status"] == "proved"
+
     def diagnose(self, template_rel):
         src = os.path.join(vlib.VERIF, "run", template_rel)
         dst = os.path.join(self.work, os.path.basename(template_rel))
@@ -337,7 +394,11 @@ class Check:
             "obligations": nob,
             "discharged": nok,
             "checker_cmd": "coqc (Coq 8.16.1, full .vo, kernel + vm_compute) on coq/Properties/%s.v, run/%s_inst.v against the regenerated Tables.v; correspondence case files evaluated by vm_compute" % (self.prop, self.prop),
-            "trusted_base": self.trusted or DEFAULT_TRUSTED,
+            "trusted_base": (self.trusted or DEFAULT_TRUSTED) + (
+                ["coq/Src/MiniPy.v (meaning of the Python subset of the integer kernels) and tools/gen_src.py (prints their ast as constructors; fail-closed)"]
+                if "source_tie" in self.extra_cov else []) + (
+                ["coq/Src/PyO.v (meaning of the Python subset of the stream classes: one object, exceptions by class, while with a budget, calls into an abstract environment), coq/Src/SockEnv.v / ReaderEnv.v (the environment and the layout of a model state as attributes of self) and tools/gen_src2.py (prints the ast of the methods as constructors; fail-closed)"]
+                if any(k.startswith("source_tie_") for k in self.extra_cov) else []),
             "obligation_list": [{"name": o["name"], "kind": o["kind"], "ok": o["ok"]} for o in self.obligations],
             "axioms_per_theorem": self.axioms,
             "evaluations": self.corr["cases"] + self.direct["evaluations"],
